@@ -358,8 +358,10 @@ def run_success_case(case):
     ff = case["ff"]
     opts = [f"--ff={ff}"] + list(case.get("opts", []))
     if case["kind"] == "host":
+        # one water next to the peptide, one far away from everything
         atoms, _info = corpus.build_host({"x": case["x"], "pos": case["pos"],
-                                          "waters": [[9.0, 9.0, 9.0]]})
+                                          "waters": [[9.0, 9.0, 9.0],
+                                                     [60.0, -45.0, 70.0]]})
         label = f"{ff}/{case['x']}@{case['pos']}"
     else:
         atoms = build.build_strand(case["seq"], naming=case["naming"])
